@@ -80,12 +80,16 @@ def _enc(obj, out):
             out.append(b'OExt')
             _enc([obj.wav, obj.chi], out)
         elif name == 'Fitter':
-            m = obj.models
+            # every attribute the fitter and its Models own (so that hidden state a changed
+            # implementation might add -- caches, counters -- is part of the state too)
             out.append(b'OFitter')
-            _enc([np.asarray(m.fluxes.value), m.fluxes.unit.to_string(), m.names, m.wavelengths,
-                  m.distances, m.logd, np.asarray(m.extended) if m.extended is not None else None,
-                  np.asarray(obj.av_law), np.asarray(obj.sc_law), list(obj.av_range), obj.filters,
-                  obj.model_dir, obj.extinction_law], out)
+            for holder in (obj, obj.models):
+                d = {}
+                for k, v in vars(holder).items():
+                    if k == 'models':
+                        continue
+                    d[k] = v if _encodable(v) else 'unencodable:' + type(v).__name__
+                _enc(d, out)
         elif hasattr(obj, 'tolist') and hasattr(obj, 'dtype'):
             _enc(np.asarray(obj), out)
         else:
